@@ -8,8 +8,9 @@
    pseudo_selections, pseudo_expected, ...) are at the top of Proofs/HeaderCollectProofs.v and
    Proofs/HeaderWireProofs.v. *)
 From ReqV Require Import Lib.Bytes Model.HeaderOrder Model.HeaderCollect
+  Model.HeaderMerge
   Proofs.HeaderOrderProofs Proofs.HeaderCollectProofs Proofs.HeaderWireProofs Proofs.HeaderSyncProofs
-  Gen.HeaderSrc.
+  Proofs.HeaderMergeProofs Gen.HeaderSrc.
 From Coq Require Import Permutation Sorting.Sorted.
 
 (* ===================== part 1: header.SortKeyValues ===================== *)
@@ -86,6 +87,14 @@ Theorem C16_sort_output_unique : forall kvs order out,
   out = sort_key_values kvs order.
 Proof. exact sort_output_unique. Qed.
 Print Assumptions C16_sort_output_unique.
+
+(* the complete functional description: the output is the entries named by order[0] (in input
+   order), then those named by order[1], ..., finally the unlisted ones in input order *)
+Theorem C16_sort_is_bucket_layout : forall kvs order,
+  sort_key_values kvs order =
+  flat_map (fun i => filter (fun x => rank order (fst x) =? i) kvs) (seq 0 (S (length order))).
+Proof. exact sort_key_values_bucket_layout. Qed.
+Print Assumptions C16_sort_is_bucket_layout.
 
 (* the comparator of the pinned code answers differently for the same two elements depending
    on where they currently sit in the slice: not an order on the elements at all *)
@@ -321,6 +330,125 @@ Theorem C16_h3_order_independent_of_map_iteration : forall q h',
    map (line_rank (order_list (c_hdr q))) (h3_regular_lines q)).
 Proof. exact h3_order_independent_of_map_iteration. Qed.
 Print Assumptions C16_h3_order_independent_of_map_iteration.
+
+(* ===================== part 2b: from the caller's API calls to the wire ===================== *)
+(* Model/HeaderMerge.v: the setters (apply_ops), parseRequestHeader (merge_client), AddCookie, the
+   client-level order wrappers (run_wrappers); transport_hdr = the map the protocol writer gets. *)
+
+Theorem C16_setters_build_a_map : forall ops, NoDup (map fst (apply_ops ops)).
+Proof. exact apply_ops_nodup. Qed.
+Print Assumptions C16_setters_build_a_map.
+
+Theorem C16_set_header_replaces : forall ops k v,
+  hvals (apply_ops (ops ++ [OpSet k v])) (mime_key k) = [v].
+Proof. exact set_header_replaces. Qed.
+Print Assumptions C16_set_header_replaces.
+
+Theorem C16_set_header_non_canonical_appends : forall ops k v,
+  hvals (apply_ops (ops ++ [OpNC k v])) k = hvals (apply_ops ops) k ++ [v] /\
+  forall k', k' <> k -> hvals (apply_ops (ops ++ [OpNC k v])) k' = hvals (apply_ops ops) k'.
+Proof. exact set_header_non_canonical_appends. Qed.
+Print Assumptions C16_set_header_non_canonical_appends.
+
+(* request level wins per exact key; client level fills the keys the request has no value for;
+   nothing is invented *)
+Theorem C16_merge_keeps_request_level : forall ch rh k vs,
+  NoDup (map fst rh) -> In (k, vs) rh -> vs <> [] -> In (k, vs) (merge_client rh ch).
+Proof. exact merge_keeps_request_level. Qed.
+Print Assumptions C16_merge_keeps_request_level.
+
+Theorem C16_merge_adds_client_level : forall ch rh k vs,
+  NoDup (map fst ch) -> In (k, vs) ch -> hvals rh k = [] -> hvals (merge_client rh ch) k = vs.
+Proof. exact merge_adds_client_level. Qed.
+Print Assumptions C16_merge_adds_client_level.
+
+Theorem C16_merge_client_ignored : forall ch rh k,
+  hvals rh k <> [] -> hvals (merge_client rh ch) k = hvals rh k.
+Proof. exact merge_client_ignored. Qed.
+Print Assumptions C16_merge_client_ignored.
+
+Theorem C16_merge_no_invention : forall ch rh x, In x (merge_client rh ch) -> In x rh \/ In x ch.
+Proof. exact merge_no_invention. Qed.
+Print Assumptions C16_merge_no_invention.
+
+(* cookies and order lists touch only their own keys; the map stays a map *)
+Theorem C16_transport_hdr_other : forall rh ch cookies ro rp k vs,
+  k <> cookie_key -> k <> header_order_key -> k <> pseudo_header_order_key ->
+  (In (k, vs) (transport_hdr rh ch cookies ro rp) <-> In (k, vs) (merge_client rh ch)).
+Proof. exact transport_hdr_other. Qed.
+Print Assumptions C16_transport_hdr_other.
+
+Theorem C16_transport_hdr_nodup : forall rh ch cookies ro rp,
+  NoDup (map fst rh) -> NoDup (map fst (transport_hdr rh ch cookies ro rp)).
+Proof. exact transport_hdr_nodup. Qed.
+Print Assumptions C16_transport_hdr_nodup.
+
+(* which order list is in force: the client-level one registered first REPLACES the request's
+   (as the code does); with none, the request-level list *)
+Theorem C16_client_order_in_force : forall rh ch cookies o ro rp,
+  order_list (transport_hdr rh ch cookies (o :: ro) rp) = o.
+Proof. exact transport_order_client. Qed.
+Print Assumptions C16_client_order_in_force.
+
+Theorem C16_client_pseudo_order_in_force : forall rh ch cookies ro o rp,
+  porder_list (transport_hdr rh ch cookies ro (o :: rp)) = o.
+Proof. exact transport_porder_client. Qed.
+Print Assumptions C16_client_pseudo_order_in_force.
+
+Theorem C16_request_order_in_force : forall rh ch cookies rp,
+  order_list (transport_hdr rh ch cookies [] rp) = hvals (merge_client rh ch) header_order_key.
+Proof. exact transport_order_request. Qed.
+Print Assumptions C16_request_order_in_force.
+
+(* a header the caller set reaches the wire, whatever else (client level, cookies, order lists,
+   presets) is configured *)
+Theorem C16_api_h1_request_level : forall m host path scheme clen cmp rh ch cookies ro rp k vs v,
+  NoDup (map fst rh) -> In (k, vs) rh -> In v vs ->
+  mem_bytes k h1_exclude = false -> valid_field_name k = true -> k <> cookie_key ->
+  In (k, sanitize v) (h1_lines (req_of m host path scheme (transport_hdr rh ch cookies ro rp) clen cmp)).
+Proof. exact api_h1_request_level. Qed.
+Print Assumptions C16_api_h1_request_level.
+
+Theorem C16_api_h1_client_level : forall m host path scheme clen cmp rh ch cookies ro rp k vs v,
+  NoDup (map fst rh) -> NoDup (map fst ch) -> In (k, vs) ch -> hvals rh k = [] -> In v vs ->
+  mem_bytes k h1_exclude = false -> valid_field_name k = true -> k <> cookie_key ->
+  In (k, sanitize v) (h1_lines (req_of m host path scheme (transport_hdr rh ch cookies ro rp) clen cmp)).
+Proof. exact api_h1_client_level. Qed.
+Print Assumptions C16_api_h1_client_level.
+
+Theorem C16_api_h2_request_level : forall m host path scheme clen cmp rh ch cookies ro rp k vs v,
+  NoDup (map fst rh) -> In (k, vs) rh -> In v vs ->
+  is_excluded k = false -> is_ua k = false -> equal_fold k (bs "cookie") = false ->
+  In (to_lower k, v) (h2_lines (req_of m host path scheme (transport_hdr rh ch cookies ro rp) clen cmp)).
+Proof. exact api_h2_request_level. Qed.
+Print Assumptions C16_api_h2_request_level.
+
+Theorem C16_api_h3_request_level : forall m host path scheme clen cmp rh ch cookies ro rp k vs v,
+  NoDup (map fst rh) -> In (k, vs) rh -> In v vs ->
+  is_excluded k = false -> is_ua k = false -> k <> cookie_key ->
+  In (to_lower k, v) (h3_lines (req_of m host path scheme (transport_hdr rh ch cookies ro rp) clen cmp)).
+Proof. exact api_h3_request_level. Qed.
+Print Assumptions C16_api_h3_request_level.
+
+(* cookies added with SetCookies / SetCommonCookies (no hand-written Cookie header): on HTTP/2 one
+   `cookie` field per cookie, in order, nothing else; on HTTP/1.1 and HTTP/3 the single field
+   "p1; ...; pn" *)
+Theorem C16_api_h2_cookies : forall rh ch p ps ro rp,
+  hvals (merge_client rh ch) cookie_key = [] -> forallb crumb_ok (p :: ps) = true ->
+  let h := transport_hdr rh ch (p :: ps) ro rp in
+  In (cookie_key, hvals h cookie_key) h /\
+  h2_user_lines (cookie_key, hvals h cookie_key) = map (fun c => (bs "cookie", c)) (p :: ps).
+Proof. exact api_h2_cookies. Qed.
+Print Assumptions C16_api_h2_cookies.
+
+Theorem C16_api_h1_h3_cookies : forall rh ch p ps ro rp,
+  hvals (merge_client rh ch) cookie_key = [] -> p <> [] ->
+  let h := transport_hdr rh ch (p :: ps) ro rp in
+  In (cookie_key, hvals h cookie_key) h /\
+  h3_user_lines (cookie_key, hvals h cookie_key) = [(cookie_key, join_with semi_sp (p :: ps))] /\
+  h1_user_lines (cookie_key, hvals h cookie_key) = [(cookie_key, sanitize (join_with semi_sp (p :: ps)))].
+Proof. exact api_h3_cookies. Qed.
+Print Assumptions C16_api_h1_h3_cookies.
 
 (* ===================== part 3: the source the model transcribes ===================== *)
 (* Gen/HeaderSrc.v is regenerated from the working tree on every run; these statements pin the text
